@@ -159,7 +159,7 @@ pub fn fragments() -> Vec<Fragment> {
     // 5. streams: lengths, filters, predictors, forms, annotations
     {
         let flate = |data: &[u8]| crate::engine::filters::flate_encode(data, false, 6);
-        let mut objs = skeleton(vec![("AcroForm", d(vec![("Fields", arr(vec![r(40)])), ("DR", d(vec![]))]))], vec![("Resources", d(vec![("XObject", d(vec![("Fm", r(10)), ("Im", r(12))])), ("ExtGState", d(vec![("G", d(vec![("Font", arr(vec![r(50), i(10)])), ("LW", i(1))]))]))])), ("Contents", arr(vec![r(20), r(21)])), ("Annots", arr(vec![r(30)]))]);
+        let mut objs = skeleton(vec![("AcroForm", d(vec![("Fields", arr(vec![r(40)])), ("DR", d(vec![]))]))], vec![("Resources", d(vec![("XObject", d(vec![("Fm", r(10)), ("Im", r(12)), ("Fax", r(14)), ("Jb", r(15))])), ("ExtGState", d(vec![("G", d(vec![("Font", arr(vec![r(50), i(10)])), ("LW", i(1))]))]))])), ("Contents", arr(vec![r(20), r(21)])), ("Annots", arr(vec![r(30)]))]);
         let pred = crate::engine::filters::png_encode(&[1, 2, 3, 4, 5, 6, 7, 8], crate::engine::filters::Geometry { colors: 1, bpc: 8, columns: 4 }, |_| 1);
         objs.extend(vec![
             (10, st(vec![("Type", n("XObject")), ("Subtype", n("Form")), ("BBox", rect(10, 10)), ("Resources", d(vec![("XObject", d(vec![("Self", r(10)), ("Other", r(11))]))])), ("Length", r(13))], b"/Self Do /Other Do")),
@@ -170,6 +170,10 @@ pub fn fragments() -> Vec<Fragment> {
                 crate::engine::filters::hex_encode(&z, &mut t)
             })),
             (13, i(18)),
+            // a fax image (its geometry is hostile under the numeric substitutions) and a JBIG2 image with a globals stream
+            (14, st(vec![("Type", n("XObject")), ("Subtype", n("Image")), ("Width", i(8)), ("Height", i(2)), ("ColorSpace", n("DeviceGray")), ("BitsPerComponent", i(1)), ("Filter", n("CCITTFaxDecode")), ("DecodeParms", d(vec![("K", i(-1)), ("Columns", i(8)), ("Rows", i(2))]))], &[0x00, 0x10, 0x01])),
+            (15, st(vec![("Type", n("XObject")), ("Subtype", n("Image")), ("Width", i(8)), ("Height", i(2)), ("ColorSpace", n("DeviceGray")), ("BitsPerComponent", i(1)), ("Filter", n("JBIG2Decode")), ("DecodeParms", d(vec![("JBIG2Globals", r(16))]))], &[0, 0, 0, 0])),
+            (16, st(vec![("Filter", n("JBIG2Decode")), ("DecodeParms", d(vec![("JBIG2Globals", r(11))]))], &[0, 0])),
             (20, st(vec![("Filter", n("LZWDecode")), ("DecodeParms", d(vec![("EarlyChange", i(1)), ("Predictor", i(2)), ("Colors", i(1)), ("BitsPerComponent", i(8)), ("Columns", i(2))]))], &{
                 let mut t = crate::engine::tape::Tape::new(&[]);
                 crate::engine::filters::lzw_encode(b"q Q q Q ", 1, &mut t)
@@ -383,6 +387,70 @@ pub fn structural_cases() -> Vec<(String, Vec<u8>)> {
         w.xref_stream(11, 30, &[(Bytes::from("Root"), r(1)), (Bytes::from("Extra"), arr(vec![r(20), r(21)]))], false, &[], false);
         out.push((format!("objstm/offset-table-{}", k), w.finish()));
     }
+    // an object whose whole value is a reference (to itself, to another such object, to a real object)
+    for (label, objs5, objs6) in [("self", 5u64, 6u64), ("pair", 6, 5), ("real", 3, 3), ("chain-end", 6, 3)] {
+        for slot in ["Contents", "Resources", "Annots", "MediaBox", "Kids", "Root-entry"] {
+            let mut w = Writer::new(b"", "1.4");
+            let mut objs = crate::engine::writer::minimal_catalog(1, 2, 3, 1);
+            match slot {
+                "Kids" => {
+                    if let Val::Dict(d2) = &mut objs[1].1 {
+                        d2.retain(|(k, _)| k.as_slice() != b"Kids");
+                        d2.push((Bytes::from("Kids"), r(5)));
+                    }
+                }
+                "Root-entry" => {
+                    if let Val::Dict(d1) = &mut objs[0].1 {
+                        d1.push((Bytes::from("Outlines"), r(5)));
+                        d1.push((Bytes::from("Names"), r(5)));
+                        d1.push((Bytes::from("PageLabels"), r(5)));
+                    }
+                }
+                other => {
+                    if let Val::Dict(d3) = &mut objs[2].1 {
+                        d3.retain(|(k, _)| k.as_slice() != other.as_bytes());
+                        d3.push((Bytes::from(other), r(5)));
+                    }
+                }
+            }
+            for (num, v) in objs {
+                w.obj(num, 0, &v);
+            }
+            w.obj(5, 0, &r(objs5));
+            w.obj(6, 0, &r(objs6));
+            w.free(0, 0, 65535);
+            w.xref_table(7, &[(Bytes::from("Root"), r(1)), (Bytes::from("ID"), r(5))], false);
+            out.push((format!("object-is-reference/{}-{}", label, slot), w.finish()));
+        }
+    }
+    // chains of distinct objects that are loaded eagerly: /Parent links above the root page-tree node
+    for len in [10usize, 40, 60, 300, 3000] {
+        let mut w = Writer::new(b"", "1.4");
+        w.obj(1, 0, &d(vec![("Type", n("Catalog")), ("Pages", r(2))]));
+        w.obj(2, 0, &d(vec![("Type", n("Pages")), ("Kids", arr(vec![r(3)])), ("Count", i(1)), ("Parent", r(10))]));
+        w.obj(3, 0, &d(vec![("Type", n("Page")), ("Parent", r(2)), ("MediaBox", rect(100, 100))]));
+        for k in 0..len as u64 {
+            let mut e = vec![("Type", n("Pages")), ("Kids", arr(vec![])), ("Count", i(0))];
+            if k + 1 < len as u64 {
+                e.push(("Parent", r(11 + k)));
+            }
+            w.obj(10 + k, 0, &d(e));
+        }
+        w.free(0, 0, 65535);
+        w.xref_table(10 + len as u64, &[(Bytes::from("Root"), r(1))], false);
+        out.push((format!("parent-chain/{}", len), w.finish()));
+    }
+    // inputs found by reading the code (kept as a regression corpus under corpus/hostile)
+    {
+        let dir = format!("{}/corpus/hostile", std::env::var("VERIF_DIR").unwrap_or_else(|_| "/verif".into()));
+        let mut names: Vec<_> = std::fs::read_dir(&dir).map(|rd| rd.flatten().map(|e| e.path()).collect()).unwrap_or_default();
+        names.sort();
+        for p in names {
+            if let Ok(bytes) = std::fs::read(&p) {
+                out.push((format!("hostile-corpus/{}", p.file_name().map(|x| x.to_string_lossy().to_string()).unwrap_or_default()), bytes));
+            }
+        }
+    }
     // date strings (information dictionary, read when the file is opened, and an annotation): every prefix of a full date
     // followed by a multi-byte character, an invalid byte, letters, or nothing
     {
@@ -590,4 +658,4 @@ pub fn run(ctx: &Ctx) {
     );
 }
 
-pub const RULE: &str = "cases = syntactically valid files written by the harness from 7 typed schema fragments (page tree direct and compressed, name/number trees and outlines, fonts, colour spaces and functions, streams/forms/annotations/fields, encryption dictionary): every reference slot pointed in turn at every object of its fragment, at object 0 and at a missing object; every numeric slot set in turn to each of {-1, 0, 1, 2^31-1, 2^32-1, 2^64-1, -2^31, 65536, 255, 0.5, -1e30, 3.4e38} (all single-slot substitutions in both tiers); random 2-5 slot combinations; structural cases (/Prev loops of length 1-3, hostile xref-stream /W /Index /Size, object streams lying about N/First or containing/extending themselves or with boundary numbers in their offset table, nesting 19/20/21/100/10000 deep, date strings cut at every length and continued with multi-byte, invalid or alphabetic bytes); oracle = C01's: the deep walk in a worker process returns from every call, no panic, no abnormal exit, no confirmed time-out, allocation within the proportional bound; non-trivial = the file loaded (typed loading reached the planted structure); distinct by substitution";
+pub const RULE: &str = "cases = syntactically valid files written by the harness from 7 typed schema fragments (page tree direct and compressed, name/number trees and outlines, fonts, colour spaces and functions, streams/forms/annotations/fields, encryption dictionary): every reference slot pointed in turn at every object of its fragment, at object 0 and at a missing object; every numeric slot set in turn to each of {-1, 0, 1, 2^31-1, 2^32-1, 2^64-1, -2^31, 65536, 255, 0.5, -1e30, 3.4e38} (all single-slot substitutions in both tiers); random 2-5 slot combinations; structural cases (/Prev loops of length 1-3, hostile xref-stream /W /Index /Size, object streams lying about N/First or containing/extending themselves or with boundary numbers in their offset table, nesting 19/20/21/100/10000 deep, date strings cut at every length and continued with multi-byte, invalid or alphabetic bytes, objects whose whole value is a reference (to itself, in pairs, in chains) in every slot of the skeleton, /Parent chains of 10-3000 distinct nodes above the root, and the regression corpus corpus/hostile); oracle = C01's: the deep walk in a worker process returns from every call, no panic, no abnormal exit, no confirmed time-out, allocation within the proportional bound; non-trivial = the file loaded (typed loading reached the planted structure); distinct by substitution";
